@@ -25,8 +25,12 @@ type vssRecorder struct {
 
 func (r *vssRecorder) PrivateSend(dest int, data []byte) { r.shares[dest] = append([]byte{}, data...) }
 func (r *vssRecorder) Broadcast(data []byte)             { r.vector = append([]byte{}, data...) }
-func (r *vssRecorder) Disqualify(i int, log string)      { r.events = append(r.events, fmt.Sprintf("disqualify %d", i)) }
-func (r *vssRecorder) FlagMisbehavior(i int, log string) { r.events = append(r.events, fmt.Sprintf("flag %d", i)) }
+func (r *vssRecorder) Disqualify(i int, log string) {
+	r.events = append(r.events, fmt.Sprintf("disqualify %d", i))
+}
+func (r *vssRecorder) FlagMisbehavior(i int, log string) {
+	r.events = append(r.events, fmt.Sprintf("flag %d", i))
+}
 
 var vssVectorKinds = []string{"honest", "alt", "wrongSizeShort", "wrongSizeLong", "missingElement", "badEncoding", "offCurve", "notInG2", "smallOrderAnnihilated", "empty", "unknownTag"}
 var vssShareKinds = []string{"honest", "alt", "plusOne", "zero", "geR", "wrongSize", "badTag", "empty"}
